@@ -152,8 +152,11 @@ CLAIMS["C05"] = _b(
     "Channel, for every capacity 1..u32::MAX and every schedule of send-if-ready / take / poll receiver_closed / poll send_ready with the "
     "system at rest in between: no debug_assert! fails, the broker refuses no item and no grant, waiting items = sent - taken, the three "
     "parties' counts agree, a sender whose receiver has taken everything may send; tied to two real clients on a real broker by the chan "
-    "harness (observations and the private capacity / cur_capacity fields). Partial: client-side schedules in which operations overtake "
-    "messages in flight and the client-side claim/close paths are only exercised by sys scenario B (real clients under a PRNG schedule; "
+    "harness (observations and the private capacity / cur_capacity fields); client_channel_all_interleavings: the same with every message "
+    "in one of four FIFO queues which the schedule moves (any interleaving; counts agree once what is in flight is added in, no item without "
+    "credit, no overflowing grant, forwarded - taken <= capacity); the driver answers the harness from both models, which must agree. "
+    "Partial: the in-flight model is tied through at-rest schedules only; real interleavings and the client-side claim/close paths are "
+    "exercised by sys scenario B (real clients under a PRNG schedule; "
     "in-order items; a sender whose receiver is alive and has taken everything must be allowed to send).", "DESIGN.md section 6 C05 and 10.2")
 CLAIMS["C09"] = _b(
     "Machine-checked proof (Lean 4) of an inductive invariant over ALL histories of broker events, including every way and point of "
